@@ -13,7 +13,7 @@ set_option linter.unusedSimpArgs false
 namespace Mqtt.Proofs.Broker
 open Mqtt.Iface.Broker Mqtt.Model.Broker
 open Mqtt.Model.Topics (MemTopics RMsg SNode RNode levels validQos Level)
-open Mqtt.Proofs.Topics (WF RWF abs absR good)
+open Mqtt.Proofs.Topics (WF RWF abs absR good entryLevels)
 
 /-! ### bridge: the regenerated table against the protocol constant -/
 
@@ -75,13 +75,15 @@ theorem getConn_of_alive (b : B) (c : Nat) (h : b.alive c = true) :
 
 /-! ### acceptance of a requested filter does not depend on the store -/
 
-/-- `Subscribe` accepts (filter, QoS byte): the QoS byte is 0, 1 or 2 and the
-level walk of the filter ends without error -/
-def accepts (t : Bytes) (q : Nat) : Bool := validQos q && (levels t).2
+/-- `Subscribe` accepts (filter, QoS byte): the QoS byte is 0, 1 or 2, the
+filter does not begin with '$' and its level walk ends without error
+(`entryLevels t = levels t` unless `checkSys t`, and then it is `([], false)`) -/
+def accepts (t : Bytes) (q : Nat) : Bool := validQos q && (entryLevels t).2
 
 theorem subscribe_snd (mt : MemTopics) (mq : Nat) (t : Bytes) (q c : Nat) :
     (mt.subscribe mq t q c).2 = if accepts t q then some (min q mq) else none := by
-  unfold MemTopics.subscribe accepts SNode.sinsert
+  rw [Mqtt.Proofs.Topics.subscribe_entry]
+  unfold accepts
   cases hv : validQos q with
   | false => simp
   | true =>
@@ -94,13 +96,13 @@ theorem subscribe_snd (mt : MemTopics) (mq : Nat) (t : Bytes) (q c : Nat) :
 
 theorem subscribe_rroot (mt : MemTopics) (mq : Nat) (t : Bytes) (q c : Nat) :
     (mt.subscribe mq t q c).1.rroot = mt.rroot := by
-  unfold MemTopics.subscribe SNode.sinsert
+  rw [Mqtt.Proofs.Topics.subscribe_entry]
   cases validQos q <;> rfl
 
 theorem subscribe_sroot (mt : MemTopics) (mq : Nat) (t : Bytes) (q c : Nat) :
     (mt.subscribe mq t q c).1.sroot =
-      if validQos q then mt.sroot.sinsertL (levels t).1 (levels t).2 c (min q mq) else mt.sroot := by
-  unfold MemTopics.subscribe SNode.sinsert
+      if validQos q then mt.sroot.sinsertL (entryLevels t).1 (entryLevels t).2 c (min q mq) else mt.sroot := by
+  rw [Mqtt.Proofs.Topics.subscribe_entry]
   cases hv : validQos q with
   | false => simp
   | true =>
@@ -112,10 +114,12 @@ theorem subscribe_sroot (mt : MemTopics) (mq : Nat) (t : Bytes) (q c : Nat) :
     rw [hm]
 
 theorem unsubscribe_rroot (mt : MemTopics) (t : Bytes) (sub : Option Nat) :
-    (mt.unsubscribe t sub).1.rroot = mt.rroot := rfl
+    (mt.unsubscribe t sub).1.rroot = mt.rroot := by
+  rw [Mqtt.Proofs.Topics.unsubscribe_entry]
 
 theorem unsubscribe_sroot (mt : MemTopics) (t : Bytes) (sub : Option Nat) :
-    (mt.unsubscribe t sub).1.sroot = (mt.sroot.sremoveL (levels t).1 (levels t).2 sub).1 := rfl
+    (mt.unsubscribe t sub).1.sroot = (mt.sroot.sremoveL (entryLevels t).1 (entryLevels t).2 sub).1 := by
+  rw [Mqtt.Proofs.Topics.unsubscribe_entry]
 
 /-- the return code the model gives a requested (filter, QoS byte) -/
 def modelCode (t : Bytes) (q : Nat) : Nat := if accepts t q then min q Mqtt.Generated.maxQosAllowed else 0x80
@@ -123,7 +127,7 @@ def modelCode (t : Bytes) (q : Nat) : Nat := if accepts t q then min q Mqtt.Gene
 theorem accepts_good (t : Bytes) (q : Nat) (hg : good t = true) :
     accepts t q = (Mqtt.Spec.Match.validFilter t && decide (q ≤ 2)) := by
   unfold accepts
-  rw [Mqtt.Proofs.Topics.validQos_iff]
+  rw [Mqtt.Proofs.Topics.validQos_iff, Mqtt.Proofs.Topics.entryLevels_good t hg]
   cases hv : Mqtt.Spec.Match.validFilter t with
   | true => rw [(Mqtt.Proofs.Topics.levels_valid t hg hv).2]; simp
   | false => rw [Mqtt.Proofs.Topics.levels_invalid t hg hv]; simp
